@@ -128,6 +128,21 @@ static uint8_t stream_byte(int s, long i) {
 }
 static const int stream_len[] = { 40, 40, 40, 32, 2048, 1100 };
 
+
+/* a buffer of len bytes at alignment al (mod 8) between two PROT_NONE pages: tail = 1 puts its end within 7 bytes of the page
+ * behind it (the closest an aligned start allows), tail = 0 puts its start al bytes behind the page in front of it.
+ * A read outside a valid buffer by more than that distance faults. */
+static uint8_t *galloc(size_t len, int al, int tail, void **map, size_t *maplen) {
+	size_t pages = (len + 16 + 4095) / 4096 + 2;
+	uint8_t *m = mmap(NULL, pages * 4096, PROT_NONE, MAP_PRIVATE | MAP_ANONYMOUS, -1, 0);
+	if (m == MAP_FAILED) return NULL;
+	mprotect(m + 4096, (pages - 2) * 4096, PROT_READ | PROT_WRITE);
+	*map = m; *maplen = pages * 4096;
+	if (!tail) return m + 4096 + al;
+	size_t e = (8 - ((len + (size_t)al) % 8)) % 8;
+	return m + (pages - 1) * 4096 - e - len;
+}
+
 static int do_crc(const char *out) {
 	FILE *f = fopen(out, "w");
 	if (!f) return 2;
@@ -141,12 +156,23 @@ static int do_crc(const char *out) {
 			bool first = true;
 			for (int al = 0; al < 8; al++) {
 				for (int i = 0; i < len; i++) big[al + i] = stream_byte(s, i);
-				uint32_t r[4];
+				uint32_t r[12];
 				int n = 0;
 				r[n++] = mtbl_crc32c(big + al, (size_t)len);
 				r[n++] = my_crc32c_slicing(big + al, (size_t)len);
 				if (sse) r[n++] = my_crc32c_sse42(big + al, (size_t)len);
 				r[n++] = ref_crc(big + al, (size_t)len);        /* the reference is judged by TLC as well */
+				/* the same bytes with unreadable memory right behind / in front of them */
+				for (int tail = 0; tail < 2; tail++) {
+					void *map; size_t ml;
+					uint8_t *g = galloc((size_t)len, al, tail, &map, &ml);
+					if (!g) continue;
+					memcpy(g, big + al, (size_t)len);
+					r[n++] = mtbl_crc32c(g, (size_t)len);
+					r[n++] = my_crc32c_slicing(g, (size_t)len);
+					if (sse) r[n++] = my_crc32c_sse42(g, (size_t)len);
+					munmap(map, ml);
+				}
 				for (int k = 0; k < n; k++) {
 					fprintf(f, "%s[%u,%u]", first ? "" : ",", r[k] >> 16, r[k] & 0xFFFF);
 					first = false;
@@ -168,14 +194,16 @@ static int do_crcrand(uint64_t seed, int n) {
 	for (int t = 0; t < n; t++) {
 		size_t len = (size_t)(xs(&x) % (t % 7 == 0 ? 4000000 : 70000));
 		int al = (int)(xs(&x) % 8);
-		uint8_t *buf = malloc(len + 16);
-		for (size_t i = 0; i < len + 8; i++) buf[i] = (uint8_t)(xs(&x) >> 11);
-		uint32_t r = ref_crc(buf + al, len);
-		if (mtbl_crc32c(buf + al, len) != r) { bad++; printf("MISMATCH dispatch len=%zu align=%d\n", len, al); }
-		if (my_crc32c_slicing(buf + al, len) != r) { bad++; printf("MISMATCH slicing len=%zu align=%d\n", len, al); }
-		if (sse && my_crc32c_sse42(buf + al, len) != r) { bad++; printf("MISMATCH sse42 len=%zu align=%d\n", len, al); }
+		void *map; size_t ml;
+		uint8_t *buf = galloc(len, al, t % 2, &map, &ml);       /* unreadable memory behind (odd t) or in front of the buffer */
+		if (!buf) continue;
+		for (size_t i = 0; i < len; i++) buf[i] = (uint8_t)(xs(&x) >> 11);
+		uint32_t r = ref_crc(buf, len);
+		if (mtbl_crc32c(buf, len) != r) { bad++; printf("MISMATCH dispatch len=%zu align=%d\n", len, al); }
+		if (my_crc32c_slicing(buf, len) != r) { bad++; printf("MISMATCH slicing len=%zu align=%d\n", len, al); }
+		if (sse && my_crc32c_sse42(buf, len) != r) { bad++; printf("MISMATCH sse42 len=%zu align=%d\n", len, al); }
 		checks += 2 + sse;
-		free(buf);
+		munmap(map, ml);
 	}
 	printf("crcrand checks=%ld bad=%ld\n", checks, bad);
 	return bad != 0;
